@@ -384,6 +384,31 @@ def ev_win_fn(e, env):
 
 # ------------------------------------------------------------------ transforms
 
+def check_refs(e, cols):
+    if not isinstance(e, (list, tuple)) or not e:
+        return
+    if e[0] == "col":
+        lookup(cols, e[1], e[2])
+        return
+    if e[0] == "case":
+        for c, v in e[1]:
+            check_refs(c, cols)
+            check_refs(v, cols)
+        return
+    if e[0] == "win":
+        for a in e[2]:
+            check_refs(a, cols)
+        return
+    if e[0] == "call":
+        for a in e[2]:
+            check_refs(a, cols)
+        for a in (e[3] or {}).values():
+            check_refs(a, cols)
+        return
+    for x in e[1:]:
+        check_refs(x, cols)
+
+
 def has_kind(e, kinds):
     if not isinstance(e, (list, tuple)) or not e:
         return False
@@ -517,6 +542,15 @@ class Interp:
             return self.source(t["src"], t.get("alias"))
         if rel is None:
             raise ModelError("pipeline does not start with from")
+        # every column reference must resolve whether or not a row reaches it
+        if k in ("select", "derive", "aggregate"):
+            for _, e in t["items"]:
+                check_refs(e, rel.cols)
+        elif k == "filter":
+            check_refs(t["cond"], rel.cols)
+        elif k == "sort":
+            for _, e in t["keys"]:
+                check_refs(e, rel.cols)
         return getattr(self, "t_" + k)(t, rel)
 
     # -- row-wise
@@ -624,6 +658,7 @@ class Interp:
         side = t.get("side", "inner")
         cols = JoinCols(list(rel.cols) + list(right.cols))
         cols.nleft = len(rel.cols)
+        check_refs(t["cond"], cols)
         rows, okeys = [], []
         matched_r = set()
         for i, lr in enumerate(rel.rows):
